@@ -2,6 +2,7 @@ import SlipVerif.Model.JsonLisp
 import SlipVerif.Model.JsonConfig
 import SlipVerif.Model.JsonSen
 import SlipVerif.Model.JsonWrite
+import SlipVerif.Model.JsonAlias
 import SlipVerif.Driver.Util
 --! namespace: json
 /- line protocol for C18 (arguments are space separated tokens):
@@ -24,6 +25,11 @@ import SlipVerif.Driver.Util
    json scan T|F <J>         reply: ok <path> <J> ( | <path> <J> )*      (T = leaves only)
    json config (f<hex>|w<hex>)* ; <J>   reply: ok f<hex> w<hex> | <J>   (variables after the history of
                              settings; the document as a parse entry point holds it then: m<hex> = time token)
+   json alias <aop>*         aop = new J | child b path | set b path J | rem b path | store b path b' | reset b J | trees
+                                   | G b path | L b path | A b path | H b path | W b path      (b = bag handle, 0-based)
+                             reply: ok <result> ( | <result> )*   new/child/set/rem/store/reset: ok | absent | outside | err <class>
+                             (the heap is unchanged unless the answer is ok); trees: trees <J or -> (; <J or ->)* ;
+                             reads as for ops (L = the Lisp value of the node)
    json native <J>           reply: ok <faithful T/F> <L> | ok <J> / err <class>
    json oflisp <L>           reply: ok <J> | err <class>
    json simple <G>           reply: ok <gfaithful T/F> <L> | <G> | <gbag T/F> ok <J> / err <class>   (SimpleObject, Simplify of it, ObjectToBag of it)
@@ -303,6 +309,71 @@ def runOps : Nat → J → List String → List String → Option (List String)
       | .error e => some ((showErr e) :: acc).reverse
     else none
 
+def showAErr : AErr → String
+  | .noBag => "err no-bag"
+  | .dangling => "err dangling"
+  | .absent => "absent"
+  | .outside => "outside"
+  | .path e => showErr e
+
+/-- several bags on one tree (Model/JsonAlias.lean); `acc` holds the results so far (reversed) -/
+def runAlias : Nat → Heap → List String → List String → Option (List String)
+  | 0, _, _, _ => none
+  | _, _, [], acc => some acc.reverse
+  | fuel + 1, h, op :: rest, acc =>
+    let step (r : Except AErr Heap) (rest : List String) : Option (List String) :=
+      match r with
+      | .ok h' => runAlias fuel h' rest ("ok" :: acc)
+      | .error e => runAlias fuel h rest (showAErr e :: acc)
+    if op = "new" then do
+      let (j, r) ← decJ (rest.length + 1) rest
+      runAlias fuel (h.newBag j) r ("ok" :: acc)
+    else if op = "trees" then
+      let ts := (List.range h.views.length).map (fun b => match h.bagTree b with
+        | some j => join (encJ j)
+        | none => "-")
+      runAlias fuel h rest (("trees " ++ " ; ".intercalate ts) :: acc)
+    else match rest with
+    | [] => none
+    | bs :: rest => do
+      let b ← bs.toNat?
+      if op = "reset" then do
+        let (j, r) ← decJ (rest.length + 1) rest
+        step (h.resetBag b j) r
+      else do
+        let (p, r) ← decPath rest
+        if op = "child" then step (h.child b p) r
+        else if op = "rem" then step (h.removeVia b p) r
+        else if op = "set" then do
+          let (v, r') ← decJ (r.length + 1) r
+          step (h.setVia b p v) r'
+        else if op = "store" then
+          match r with
+          | is :: r' => do
+            let i ← is.toNat?
+            step (h.storeBag b p i) r'
+          | [] => none
+        else
+          match h.bagTree b with
+          | none => runAlias fuel h r ("err dangling" :: acc)
+          | some doc =>
+            if op = "G" then
+              let res := match get p doc with
+                | some j => "some " ++ join (encJ j)
+                | none => "none"
+              runAlias fuel h r (res :: acc)
+            else if op = "L" then
+              let res := match get p doc with
+                | some j => join (encL (toLisp j))
+                | none => "n"
+              runAlias fuel h r (res :: acc)
+            else if op = "A" then runAlias fuel h r (join ("list" :: encJL (getAll p doc)) :: acc)
+            else if op = "W" then
+              let visited := walk (fun (s : List J) j => j :: s) p [] doc
+              runAlias fuel h r (join ("list" :: encJL visited.reverse) :: acc)
+            else if op = "H" then runAlias fuel h r (showBool (has p doc) :: acc)
+            else none
+
 def handle (entry : String) (args : List String) : String :=
   let n := args.length + 1
   match entry with
@@ -313,6 +384,10 @@ def handle (entry : String) (args : List String) : String :=
       | some rs => "ok " ++ " | ".intercalate rs
       | none => "bad-request ops"
     | none => "bad-request doc"
+  | "alias" =>
+    match runAlias n {} args [] with
+    | some rs => "ok " ++ " | ".intercalate rs
+    | none => "bad-request alias"
   | "write" =>
     match args with
     | lay :: rest =>
